@@ -158,6 +158,20 @@ func printFileLate(f *dst.File) (string, error) {
 
 const otherFileSrc = "package other\n\n// c\nvar (\n\ta = 1\n\n\tb = `x\ny`\n)\n\nfunc f() {\n\ta()\n\n\t/*\n\t   m\n\t*/\n\tb()\n}\n"
 
+var otherFileTree *dst.File
+
+// otherFile is the decorated sibling file (decorated once per process: restoring does not change a dst tree).
+func otherFile() *dst.File {
+	if otherFileTree == nil {
+		f, err := decorator.Parse(otherFileSrc)
+		if err != nil {
+			panic(err)
+		}
+		otherFileTree = f
+	}
+	return otherFileTree
+}
+
 // printFileBeforeAnother restores f, optionally lets the same Restorer restore another file, and only
 // then prints f's ast (a package restored as a whole and printed afterwards).
 func printFileBeforeAnother(f *dst.File, another bool) (string, error) {
@@ -167,10 +181,7 @@ func printFileBeforeAnother(f *dst.File, another bool) (string, error) {
 		return "", err
 	}
 	if another {
-		other, err := decorator.Parse(otherFileSrc)
-		if err != nil {
-			panic(err)
-		}
+		other := otherFile()
 		if _, err := r.RestoreFile(other); err != nil {
 			panic(err)
 		}
@@ -188,10 +199,7 @@ func printFileFRBeforeAnother(f *dst.File, another bool) (string, error) {
 		return "", err
 	}
 	if another {
-		other, err := decorator.Parse(otherFileSrc)
-		if err != nil {
-			panic(err)
-		}
+		other := otherFile()
 		fr.Name = "other.go"
 		if _, err := fr.RestoreFile(other); err != nil {
 			panic(err)
@@ -207,10 +215,7 @@ func printFileFRBeforeAnother(f *dst.File, another bool) (string, error) {
 func printFileReusedFileRestorer(f *dst.File, reused bool) (string, error) {
 	fr := decorator.NewRestorer().FileRestorer()
 	if reused {
-		other, err := decorator.Parse(otherFileSrc)
-		if err != nil {
-			panic(err)
-		}
+		other := otherFile()
 		var sink bytes.Buffer
 		if err := fr.Fprint(&sink, other); err != nil {
 			panic(err)
@@ -309,4 +314,32 @@ func scratchDir(prefix string) (string, error) {
 		}
 	}
 	return os.MkdirTemp("", prefix)
+}
+
+// apiPut fills a decoration list the way a caller may: through Append / Prepend in the spread form, handing over a
+// slice of its own that has spare capacity, and reusing (here: overwriting) that slice afterwards. With lists that
+// behave as plain values this is the same as assigning the strings.
+func apiPut(list *dst.Decorations, prepend bool, vals ...string) {
+	buf := make([]string, len(vals), len(vals)+4)
+	copy(buf, vals)
+	if prepend {
+		list.Prepend(buf...)
+	} else {
+		list.Append(buf...)
+	}
+	buf = buf[:cap(buf)]
+	for i := range buf {
+		buf[i] = "/*stale: the caller's slice, reused after the call*/"
+	}
+}
+
+// apiPutAll puts several entries: the last one appended, the others prepended in front of it.
+func apiPutAll(list *dst.Decorations, vals ...string) {
+	if len(vals) == 0 {
+		return
+	}
+	apiPut(list, false, vals[len(vals)-1])
+	if len(vals) > 1 {
+		apiPut(list, true, vals[:len(vals)-1]...)
+	}
 }
